@@ -32,8 +32,10 @@ VARIABLES cfg,     \* [mode |-> "split"|"low"|"ctcp", kind |-> "msg"|"notice", u
           stream,  \* octets written
           lines,   \* the octets written, cut after every LF (kept in the state so that it is evaluated once)
           err,     \* the call raised
-          q, back  \* quoted text, dequoted text
-vars == <<cfg, text, phase, stream, lines, err, q, back>>
+          q, back, \* quoted text, dequoted text
+          msgs,    \* history mode: the messages sent so far, records [kind, user, limit, text, err]
+          queue    \* exhaustive run only: rendered lines waiting in a rate-limited send queue
+vars == <<cfg, text, phase, stream, lines, err, q, back, msgs, queue>>
 
 -----------------------------------------------------------------------------
 RECURSIVE Flat(_)
@@ -80,6 +82,22 @@ AcceptsX(c, t, ls, e, checklen) == IF e THEN ls = <<>> /\ (NonWs(Enc(t)) = <<>> 
                                         ELSE RelX(c, t, ls, checklen)
 Accepts(c, t, ls, e) == AcceptsX(c, t, ls, e, TRUE)
 
+(* ---- several messages on one connection (history mode; with lineRate set the client queues lines and a timer
+   writes them one by one).  Every message has its own <COMMAND> SP <target> SP ':' prefix, so its lines are
+   identifiable; the relation must hold for each message on its own lines once the queue has drained, and every
+   line written belongs to some message.  The order of lines of DIFFERENT messages is left free. ---- *)
+Mine(m, ls) == SelectSeq(ls, LAMBDA L : IsPrefix(Enc(Fmt(m)), L))
+Owned(ms, L) == \E i \in 1..Len(ms) : IsPrefix(Enc(Fmt(ms[i])), L)
+DistinctPrefixes(ms) == \A i, j \in 1..Len(ms) : i # j => Fmt(ms[i]) # Fmt(ms[j])
+\* at any moment: what has been written consists of whole, well-formed lines of known messages
+LinesSafeX(ms, ls, checklen) == \A j \in 1..Len(ls) : \E i \in 1..Len(ms) : LineOK(ms[i], ls[j], checklen)
+LinesSafe(ms, ls) == LinesSafeX(ms, ls, TRUE)
+\* once drained: each message's own lines satisfy the relation
+HistOKX(ms, ls, checklen) ==
+                  /\ LinesSafeX(ms, ls, checklen)
+                  /\ \A i \in 1..Len(ms) : AcceptsX(ms[i], ms[i].text, Mine(ms[i], ls), ms[i].err, checklen)
+HistOK(ms, ls) == HistOKX(ms, ls, TRUE)
+
 (* ---- splitters (exhaustive run only): width "octets" or "chars" ---- *)
 Wd(ch, wm) == IF wm = "octets" THEN W(ch) ELSE 1
 \* pack characters greedily into lines of at most avail
@@ -119,29 +137,46 @@ Forbidden(kind) == IF kind = "low" THEN {NUL, LF, CR} ELSE {XD}
 
 -----------------------------------------------------------------------------
 InitWith(c) == /\ cfg = c /\ text = <<>> /\ phase = "build" /\ stream = <<>> /\ lines = <<>> /\ err = FALSE
-               /\ q = <<>> /\ back = <<>>
+               /\ q = <<>> /\ back = <<>> /\ msgs = <<>> /\ queue = <<>>
 
 Extend(sym) == /\ phase = "build" /\ text' = Append(text, sym)
-               /\ UNCHANGED <<cfg, phase, stream, lines, err, q, back>>
+               /\ UNCHANGED <<cfg, phase, stream, lines, err, q, back, msgs, queue>>
 
 SendPack  == /\ phase = "build" /\ cfg.mode = "split" /\ Fits(cfg, text, "octets")
              /\ stream' = Render(cfg, SplitPack(text, Avail(cfg), "octets")) /\ lines' = Lines(stream') /\ err' = FALSE /\ phase' = "sent"
-             /\ UNCHANGED <<cfg, text, q, back>>
+             /\ UNCHANGED <<cfg, text, q, back, msgs, queue>>
 SendWords == /\ phase = "build" /\ cfg.mode = "split" /\ Fits(cfg, text, "octets")
              /\ stream' = Render(cfg, SplitWords(text, Avail(cfg), "octets")) /\ lines' = Lines(stream') /\ err' = FALSE /\ phase' = "sent"
-             /\ UNCHANGED <<cfg, text, q, back>>
+             /\ UNCHANGED <<cfg, text, q, back, msgs, queue>>
 SendRefuse == /\ phase = "build" /\ cfg.mode = "split" /\ ~Fits(cfg, text, "octets")
               /\ stream' = <<>> /\ lines' = <<>> /\ err' = TRUE /\ phase' = "sent"
-              /\ UNCHANGED <<cfg, text, q, back>>
+              /\ UNCHANGED <<cfg, text, q, back, msgs, queue>>
 \* control: the same word splitter counting characters instead of octets
 SendCharCount == /\ phase = "build" /\ cfg.mode = "chars" /\ Fits(cfg, text, "chars")
                  /\ stream' = Render(cfg, SplitWords(text, Avail(cfg), "chars")) /\ lines' = Lines(stream') /\ err' = FALSE /\ phase' = "sent"
-                 /\ UNCHANGED <<cfg, text, q, back>>
+                 /\ UNCHANGED <<cfg, text, q, back, msgs, queue>>
 
 DoQuote == /\ phase = "build" /\ cfg.mode \in {"low", "ctcp"}
            /\ q' = RefQuote(cfg.mode, text) /\ back' = RefDequote(cfg.mode, RefQuote(cfg.mode, text))
            /\ phase' = "quoted"
-           /\ UNCHANGED <<cfg, text, stream, lines, err>>
+           /\ UNCHANGED <<cfg, text, stream, lines, err, msgs, queue>>
+
+(* queue mode (exhaustive run): messages are split by the octet-counting word splitter and their rendered lines
+   queued; a timer writes one line per tick -- the oldest first ("fifo") or, as a control, the newest first ("lifo") *)
+RenderLines(c, ls) == [k \in 1..Len(ls) |-> Enc(Fmt(c) \o ls[k]) \o <<CR, LF>>]
+Enqueue(m) == /\ phase = "build" /\ cfg.mode \in {"fifo", "lifo"} /\ Fits(m, text, "octets")
+              /\ msgs' = Append(msgs, [kind |-> m.kind, user |-> m.user, limit |-> m.limit, text |-> text, err |-> FALSE])
+              /\ queue' = queue \o RenderLines(m, SplitWords(text, Avail(m), "octets"))
+              /\ text' = <<>>
+              /\ UNCHANGED <<cfg, phase, stream, lines, err, q, back>>
+TickFifo == /\ cfg.mode = "fifo" /\ queue # <<>>
+            /\ stream' = stream \o Head(queue) /\ lines' = Lines(stream') /\ queue' = Tail(queue)
+            /\ UNCHANGED <<cfg, text, phase, err, q, back, msgs>>
+TickLifo == /\ cfg.mode = "lifo" /\ queue # <<>>
+            /\ stream' = stream \o queue[Len(queue)] /\ lines' = Lines(stream') /\ queue' = SubSeq(queue, 1, Len(queue) - 1)
+            /\ UNCHANGED <<cfg, text, phase, err, q, back, msgs>>
+QueueOK == (cfg.mode \in {"fifo", "lifo"} /\ queue = <<>> /\ text = <<>>) => HistOK(msgs, lines)
+QueueSafe == cfg.mode \in {"fifo", "lifo"} => LinesSafe(msgs, lines)
 
 SplitOK     == phase = "sent" => (lines = Lines(stream) /\ Accepts(cfg, text, lines, err))
 QuoteOK     == phase = "quoted" => back = text
